@@ -14,6 +14,7 @@ import translate_annotators
 import translate_export
 import translate_import
 import translate_ctor
+import translate_accessors
 
 ok_all = True
 print("history", translate_history.regenerate())
@@ -25,7 +26,7 @@ for name, f in [("name_mapping", translate_name_mapping.regenerate), ("utils", t
                 ("toggle", translate_toggle.regenerate), ("candgraph", translate_candgraph.regenerate),
                 ("core", translate_core.regenerate), ("annotators", translate_annotators.regenerate),
                 ("export", translate_export.regenerate), ("import", translate_import.regenerate),
-                ("ctor", translate_ctor.regenerate)]:
+                ("ctor", translate_ctor.regenerate), ("accessors", translate_accessors.regenerate)]:
     r = f()
     print(name, r)
     ok_all &= bool(r[0])
